@@ -65,28 +65,31 @@ theorem filter_overlap (l : List Member) (p q : Member → Bool) :
 
 /-- the relation between the states of a member before and after one of the acceptor handlers (or nothing) -/
 def AccRel (m m' : Member) : Prop :=
-  m'.phase = m.phase ∧
+  m'.phase = m.phase ∧ m'.clears = m.clears ∧ m'.voteHost = m.voteHost ∧
   ( (m'.pid = m.pid ∧ m'.cid = m.cid ∧ m'.latch = m.latch ∧ m'.commits = m.commits)
   ∨ (m.latch = none ∧ m.pid < m'.pid ∧ m.cid < m'.pid ∧ m'.cid = m.cid ∧ m'.latch = none ∧ m'.commits = m.commits)
   ∨ (∃ h, m'.pid = m.pid ∧ m.cid < m.pid ∧ m'.cid = m.pid ∧ m'.latch = some h ∧ m'.commits = (m.pid, h) :: m.commits))
 
-theorem AccRel.refl (m : Member) : AccRel m m := ⟨rfl, Or.inl ⟨rfl, rfl, rfl, rfl⟩⟩
+theorem AccRel.refl (m : Member) : AccRel m m := ⟨rfl, rfl, rfl, Or.inl ⟨rfl, rfl, rfl, rfl⟩⟩
 
 theorem accRel_handleVote (self : Nat) (m : Member) : AccRel m (handleVote self m).2 := by
   unfold handleVote currentAof
   simp only []
-  split <;> exact ⟨rfl, Or.inl ⟨rfl, rfl, rfl, rfl⟩⟩
+  split <;> exact ⟨rfl, rfl, rfl, Or.inl ⟨rfl, rfl, rfl, rfl⟩⟩
 
-theorem accRel_handleProposal (n : Nat) (m : Member) (k host : Nat) (aof : AofId) :
-    AccRel m (handleProposal n m k host aof).2 := by
-  cases hr : handleProposal n m k host aof with
+theorem accRel_handleProposal (n self : Nat) (m : Member) (k host : Nat) (aof : AofId) :
+    AccRel m (handleProposal n self m k host aof).2 := by
+  cases hr : handleProposal n self m k host aof with
   | mk r m' =>
     cases r with
     | ok old =>
-      obtain ⟨h1, h2, h3, _, h5⟩ := handleProposal_ok hr
+      obtain ⟨h1, h2, h3, _, h5, _⟩ := handleProposal_ok hr
       subst h5
-      exact ⟨rfl, Or.inr (Or.inl ⟨h1, h2, h3, rfl, h1, rfl⟩)⟩
+      exact ⟨rfl, rfl, rfl, Or.inr (Or.inl ⟨h1, h2, h3, rfl, h1, rfl⟩)⟩
     | reject => rw [handleProposal_not_ok hr (by simp)]; exact AccRel.refl m
+    | role => rw [handleProposal_not_ok hr (by simp)]; exact AccRel.refl m
+    | status => rw [handleProposal_not_ok hr (by simp)]; exact AccRel.refl m
+    | offline => rw [handleProposal_not_ok hr (by simp)]; exact AccRel.refl m
     | aofid => rw [handleProposal_not_ok hr (by simp)]; exact AccRel.refl m
     | badHost => rw [handleProposal_not_ok hr (by simp)]; exact AccRel.refl m
     | propId x => rw [handleProposal_not_ok hr (by simp)]; exact AccRel.refl m
@@ -100,7 +103,7 @@ theorem accRel_handleCommit (n : Nat) (m : Member) (f k host : Nat) :
       obtain ⟨h1, h2, h3⟩ := handleCommit_ok hr
       subst h3
       subst h1
-      exact ⟨rfl, Or.inr (Or.inr ⟨host, rfl, h2, rfl, rfl, rfl⟩)⟩
+      exact ⟨rfl, rfl, rfl, Or.inr (Or.inr ⟨host, rfl, h2, rfl, rfl, rfl⟩)⟩
     | badHost => rw [handleCommit_not_ok hr (by simp)]; exact AccRel.refl m
     | propId => rw [handleCommit_not_ok hr (by simp)]; exact AccRel.refl m
     | commitId => rw [handleCommit_not_ok hr (by simp)]; exact AccRel.refl m
@@ -152,7 +155,7 @@ theorem step_idle_member (s : State) (e : Event) (i : Nat)
       · subst hci
         simp only [State.n] at hc
         rw [getM_setM_eq _ _ _ hc]
-        exact ⟨rfl, Or.inl ⟨rfl, rfl, rfl, rfl⟩⟩
+        exact ⟨rfl, rfl, rfl, Or.inl ⟨rfl, rfl, rfl, rfl⟩⟩
       · simp only [getM_setM_ne _ _ _ _ hci]; exact AccRel.refl _
     · exact AccRel.refl _
   | deliverReq c t =>
@@ -188,8 +191,8 @@ theorem step_idle_member (s : State) (e : Event) (i : Nat)
           · simp only [htc, if_true]
             by_cases hic : i = c
             · subst hic
-              have h1 := accRel_handleProposal s.n (getM s.members i) k host aof
-              have hph : (handleProposal s.n (getM s.members i) k host aof).2.phase = .idle := by rw [h1.1]; exact hidle
+              have h1 := accRel_handleProposal s.n i (getM s.members i) k host aof
+              have hph : (handleProposal s.n i (getM s.members i) k host aof).2.phase = .idle := by rw [h1.1]; exact hidle
               rw [recordProposal_idle _ _ _ _ _ hph]
               simp only [getM_setM_eq _ _ _ hct.1]
               exact h1
@@ -198,7 +201,7 @@ theorem step_idle_member (s : State) (e : Event) (i : Nat)
             by_cases hit : i = t
             · subst hit
               simp only [getM_setM_eq _ _ _ hct.2]
-              exact accRel_handleProposal s.n (getM s.members i) k host aof
+              exact accRel_handleProposal s.n i (getM s.members i) k host aof
             · simp only [getM_setM_ne _ _ _ _ hit]; exact AccRel.refl _
         | commitReq a b k host =>
           simp only []
@@ -284,14 +287,14 @@ def CommitOnce (m : Member) : Prop :=
   (m.commits = [] ∧ m.latch = none) ∨ (∃ k h, m.commits = [(k, h)] ∧ m.latch = some h ∧ m.pid = k ∧ m.cid = k)
 
 theorem AccRel.mono {m m' : Member} (h : AccRel m m') : m'.phase = m.phase ∧ m.pid ≤ m'.pid ∧ m.cid ≤ m'.cid := by
-  obtain ⟨hp, h⟩ := h
+  obtain ⟨hp, _, _, h⟩ := h
   rcases h with ⟨h1, h2, _, _⟩ | ⟨_, h2, _, h4, _, _⟩ | ⟨x, h1, h2, h3, _, _⟩
   · exact ⟨hp, by omega, by omega⟩
   · exact ⟨hp, by omega, by omega⟩
   · exact ⟨hp, by omega, by omega⟩
 
 theorem AccRel.commitOnce {m m' : Member} (h : AccRel m m') (hc : CommitOnce m) : CommitOnce m' := by
-  obtain ⟨_, h⟩ := h
+  obtain ⟨_, _, _, h⟩ := h
   rcases h with ⟨h1, h2, h3, h4⟩ | ⟨h1, h2, h3, h4, h5, h6⟩ | ⟨x, h1, h2, h3, h4, h5⟩
   · rcases hc with ⟨c1, c2⟩ | ⟨k, hh, c1, c2, c3, c4⟩
     · left; rw [h4, h3]; exact ⟨c1, c2⟩
@@ -306,7 +309,7 @@ theorem AccRel.commitOnce {m m' : Member} (h : AccRel m m') (hc : CommitOnce m) 
 /-- a latched member (that satisfies the invariant) is frozen: no acceptor move changes its numbers, latch or commits -/
 theorem AccRel.frozen {m m' : Member} (h : AccRel m m') (hc : CommitOnce m) (hl : m.latch ≠ none) :
     m'.latch = m.latch ∧ m'.commits = m.commits ∧ m'.pid = m.pid ∧ m'.cid = m.cid := by
-  obtain ⟨_, h⟩ := h
+  obtain ⟨_, _, _, h⟩ := h
   rcases h with ⟨h1, h2, h3, h4⟩ | ⟨h1, _⟩ | ⟨x, h1, h2, h3, h4, h5⟩
   · exact ⟨h3, h4, h1, h2⟩
   · exact absurd h1 hl
